@@ -115,9 +115,10 @@ func (e *env) roleSigners(h *hist, role int, name string) (users []int, committe
 }
 
 func runC11(b *runner.Batch) {
-	n := []int{3, 7, 1, 4}[b.Index%4]
-	if !b.Thorough() && b.Index%4 >= 2 {
-		n = 3
+	// even sizes matter: there the majority (n/2+1) differs from half of the committee (seeded change C11-3)
+	n := []int{3, 4, 7, 6, 1, 2}[b.Index%6]
+	if !b.Thorough() && b.Index%6 >= 4 {
+		n = []int{3, 4}[b.Index%2]
 	}
 	e, err := newEnv(b, n, []string{"com"})
 	if err != nil {
